@@ -222,12 +222,37 @@ func rangeAux(g *Group) (string, bool) {
 	return strings.Join(out, ";"), collision
 }
 
-// classify an invalid sticky plan by the shape of the input (for the signature): the previous-owner branch of
-// performReassignments is in play when a member claims, in its user data, a partition of a topic it does not list
+// classify an invalid sticky plan by the shape of the input (for the signature).  The previous-owner branch of
+// performReassignments is in play when a member that does not list a topic claims one of its partitions in its
+// user data and ANOTHER member claims the same partition under a higher generation (so the first one is the
+// recorded previous owner).
 func stickyClass(g *Group, why, detail string) string {
+	genOf := func(m *Member) int {
+		if strings.HasPrefix(m.UD.Kind, "g") {
+			n, _ := strconv.Atoi(m.UD.Kind[1:])
+			return n
+		}
+		return -1
+	}
 	claims := func(m *Member, p TP) bool {
+		if m.UD.Kind == "-" || m.UD.Kind == "bad" {
+			return false
+		}
 		for _, q := range m.UD.Parts {
 			if q == p {
+				return true
+			}
+		}
+		return false
+	}
+	// m is a previous (not the current) claimant of p
+	previousOwner := func(m *Member, p TP) bool {
+		if !claims(m, p) {
+			return false
+		}
+		for i := range g.Members {
+			o := &g.Members[i]
+			if o.Name != m.Name && claims(o, p) && genOf(o) > genOf(m) {
 				return true
 			}
 		}
@@ -237,23 +262,14 @@ func stickyClass(g *Group, why, detail string) string {
 	case "unassigned":
 		p := parseTPs(detail)[0]
 		for i := range g.Members {
-			if claims(&g.Members[i], p) && !subscribed(&g.Members[i], p.T) {
+			if previousOwner(&g.Members[i], p) && !subscribed(&g.Members[i], p.T) {
 				return "/claimed-by-nonsubscriber"
-			}
-		}
-		// the parked member that lost its fixed assignment (revert path) shows up as holder of a stale claim
-		for i := range g.Members {
-			m := &g.Members[i]
-			for _, q := range m.UD.Parts {
-				if !subscribed(m, q.T) && g.topic(q.T) != nil && hasPart(g.topic(q.T), q.P) {
-					return "/some-stale-claim-by-nonsubscriber"
-				}
 			}
 		}
 	case "nonsubscriber":
 		f := strings.Fields(detail)
 		p := parseTPs(f[len(f)-1])[0]
-		if m := g.member(f[0]); m != nil && claims(m, p) {
+		if m := g.member(f[0]); m != nil && previousOwner(m, p) {
 			return "/own-stale-claim"
 		}
 	}
